@@ -16,6 +16,7 @@ import (
 	"sort"
 	"strconv"
 	"strings"
+	"sync"
 
 	"github.com/tonkeeper/tongo/abi"
 	"github.com/tonkeeper/tongo/boc"
@@ -678,7 +679,159 @@ func outOfDomainSection(sel []reg.Entry) {
 	}
 }
 
+// ---- one value marshalled by several goroutines at once ----
+//
+// Encoding to JSON is a read: an indexer hands one decoded message to several writers. Every text produced
+// from one shared bit string / external address / variable address must parse back to that value. The value
+// is fresh in every round (whatever an encoder might leave behind in the value, the first concurrent encodings
+// meet it untouched); no comparison of the outputs with each other, only with the value.
+func sharedMarshalSection() {
+	const workers = 8
+	const perWorker = 3
+	rounds := R.N(6000, 120000)
+	type job struct {
+		marshal func() ([]byte, error)
+		start   chan struct{}
+		out     [][]byte
+		errs    []error
+		panics  []*mon.Panic
+	}
+	bad := map[string]bool{}
+	for round := 0; round < rounds; round++ {
+		rng := R.Rng("shared-marshal", round)
+		// lengths that need the padded last digit, long strings more often (a longer encoding is a wider window)
+		n := mon.Pick(rng, []int{1023, 1022, 1021, 1019, 1001, 767, 511, 509, 255, 130, 67, 33, 9, 7, 5, 3, 2, 1, 1 + rng.Intn(1023)})
+		if n%4 == 0 {
+			n--
+		}
+		if round%3 != 0 && n > 511 {
+			n = n % 512
+			if n%4 == 0 {
+				n++
+			}
+		}
+		want := rng.Bits(n)
+		bs := boc.NewBitString(n)
+		for _, b := range want {
+			_ = bs.WriteBit(b)
+		}
+		var kind string
+		var marshal func() ([]byte, error)
+		var parse func(doc []byte) (boc.BitString, error)
+		switch round % 3 {
+		case 0:
+			kind = "boc.BitString"
+			shared := &bs
+			marshal = func() ([]byte, error) { return json.Marshal(shared) }
+			parse = func(doc []byte) (boc.BitString, error) {
+				var back boc.BitString
+				err := json.Unmarshal(doc, &back)
+				return back, err
+			}
+		case 1:
+			kind = "tlb.MsgAddress/AddrExtern"
+			shared := tlb.MsgAddress{SumType: "AddrExtern", AddrExtern: &bs}
+			marshal = func() ([]byte, error) { return json.Marshal(shared) }
+			parse = func(doc []byte) (boc.BitString, error) {
+				var back tlb.MsgAddress
+				if err := json.Unmarshal(doc, &back); err != nil {
+					return boc.BitString{}, err
+				}
+				if back.SumType != "AddrExtern" || back.AddrExtern == nil {
+					return boc.BitString{}, fmt.Errorf("read back as %s", back.SumType)
+				}
+				return *back.AddrExtern, nil
+			}
+		default:
+			kind = "tlb.MsgAddress/AddrVar"
+			wc := 1000 + int32(rng.Intn(100000))
+			var shared tlb.MsgAddress
+			shared.SumType = "AddrVar"
+			shared.AddrVar = &struct {
+				Anycast     tlb.Maybe[tlb.Anycast]
+				AddrLen     tlb.Uint9
+				WorkchainId int32
+				Address     boc.BitString
+			}{AddrLen: tlb.Uint9(n), WorkchainId: wc, Address: bs}
+			marshal = func() ([]byte, error) { return json.Marshal(shared) }
+			parse = func(doc []byte) (boc.BitString, error) {
+				var back tlb.MsgAddress
+				if err := json.Unmarshal(doc, &back); err != nil {
+					return boc.BitString{}, err
+				}
+				if back.SumType != "AddrVar" || back.AddrVar == nil || back.AddrVar.WorkchainId != wc || int(back.AddrVar.AddrLen) != n {
+					return boc.BitString{}, fmt.Errorf("read back as %s / another workchain or length", back.SumType)
+				}
+				return back.AddrVar.Address, nil
+			}
+		}
+		j := &job{marshal: marshal, start: make(chan struct{}), out: make([][]byte, workers*perWorker), errs: make([]error, workers*perWorker), panics: make([]*mon.Panic, workers)}
+		var wg sync.WaitGroup
+		for g := 0; g < workers; g++ {
+			wg.Add(1)
+			go func(g int) {
+				defer wg.Done()
+				<-j.start
+				j.panics[g] = mon.Guard(func() {
+					for k := 0; k < perWorker; k++ {
+						j.out[g*perWorker+k], j.errs[g*perWorker+k] = j.marshal()
+					}
+				})
+			}(g)
+		}
+		close(j.start)
+		wg.Wait()
+		R.Eval(fmt.Sprintf("shared-marshal/%s/%d/%d", kind, n, round))
+		for g, p := range j.panics {
+			if p != nil && !bad["panic/"+kind] {
+				bad["panic/"+kind] = true
+				R.Violation("panic@MarshalJSON/"+kind+"/shared-by-goroutines", map[string]any{"type": kind, "bits": n, "goroutine": g, "panic": p.Value, "stack": mon.Trunc(p.Stack, 1200)})
+			}
+		}
+		for i, doc := range j.out {
+			if j.panics[i/perWorker] != nil {
+				continue
+			}
+			why := ""
+			switch {
+			case j.errs[i] != nil:
+				why = "marshal error: " + j.errs[i].Error()
+			case !json.Valid(doc):
+				why = "not valid JSON"
+			default:
+				back, err := parse(doc)
+				if err != nil {
+					why = "does not parse back: " + err.Error()
+				} else {
+					got := bridge.Bits(back)
+					if len(got) != len(want) {
+						why = fmt.Sprintf("%d bits read back, %d in the value", len(got), len(want))
+					} else {
+						for k := range got {
+							if got[k] != want[k] {
+								why = fmt.Sprintf("bit %d differs", k)
+								break
+							}
+						}
+					}
+				}
+			}
+			if why != "" {
+				R.Count("shared_marshal_wrong_outputs", 1)
+				if !bad[kind] {
+					bad[kind] = true
+					alone, _ := marshal()
+					R.Violation("wrong-json-when-one-value-is-marshalled-by-several-goroutines@"+kind, map[string]any{"type": kind, "bits": n, "round": round, "goroutines": workers,
+						"doc": mon.Trunc(string(doc), 700), "why": why, "same_value_marshalled_alone_afterwards": mon.Trunc(string(alone), 700)})
+				}
+			}
+		}
+		R.Count("shared_marshal_rounds", 1)
+	}
+}
+
 func extraSections(sel []reg.Entry) {
+	sharedMarshalSection()
 	magicSection()
 	bitStringSweep()
 	envelopeSection()
